@@ -156,6 +156,7 @@ type extra struct {
 }
 
 type group struct {
+	depth  int // 0 = quorum+2 (+1 with request events)
 	name   string
 	setup  func(w gov.Execer)
 	pairs  []*pair
@@ -500,7 +501,7 @@ func (e *env) groups(level int) []*group {
 		}
 	}
 	// 7 approveRegisterRelayer: request 1 is filed by an extra event (approvals may precede it)
-	gs = append(gs, &group{name: "approveRegisterRelayer", setup: relSetup(false, true),
+	gs = append(gs, &group{name: "approveRegisterRelayer", setup: relSetup(level == 0, true),
 		pairs: []*pair{with(e.pRelReg(1, "rc"), all), with(e.pRelRem(1, "rb"), second), with(e.pRelRem(0, "ra"), few)},
 		extras: []*extra{{name: "registerRelayer([rc])->id1", resets: []string{"approveRegisterRelayer(1)"}, run: func(w gov.Execer, h uint32) polyenv.Result {
 			if _, ok := w.Dump().Map()[gov.KeyRelayerApply(1)]; ok || relCounter(w, "applyID") != 1 {
@@ -509,7 +510,7 @@ func (e *env) groups(level int) []*group {
 			return gov.Call(w, gov.RM, relayer_manager.REGISTER_RELAYER, gov.RelayerList(addrs(e, "rc"), e.a(x).Addr), e.a(x), h)
 		}}}})
 	// 8 approveRemoveRelayer
-	gs = append(gs, &group{name: "approveRemoveRelayer", setup: relSetup(true, false),
+	gs = append(gs, &group{name: "approveRemoveRelayer", setup: relSetup(true, level == 0),
 		pairs: []*pair{with(e.pRelRem(1, "rb"), all), with(e.pRelReg(1, "rc"), second), with(e.pRelRem(0, "ra"), few)},
 		extras: []*extra{{name: "removeRelayer([rb])->id1", resets: []string{"approveRemoveRelayer(1)"}, run: func(w gov.Execer, h uint32) polyenv.Result {
 			if relCounter(w, "removeID") != 1 {
@@ -533,7 +534,7 @@ func (e *env) groups(level int) []*group {
 		}
 	}
 	// 9 approveRegisterStateValidator
-	gs = append(gs, &group{name: "approveRegisterStateValidator", setup: svSetup(false, true),
+	gs = append(gs, &group{name: "approveRegisterStateValidator", setup: svSetup(level == 0, true),
 		pairs: []*pair{with(e.pSvReg(1, "sv3"), all), with(e.pSvRem(1, "sv2"), second), with(e.pSvRem(0, "sv1"), few)},
 		extras: []*extra{{name: "registerStateValidator([sv3])->id1", resets: []string{"approveRegisterStateValidator(1)"}, run: func(w gov.Execer, h uint32) polyenv.Result {
 			if svCounter(w, neo3_state_manager.STATE_VALIDATOR_APPLY_ID) != 1 {
@@ -542,7 +543,7 @@ func (e *env) groups(level int) []*group {
 			return gov.Call(w, gov.SVM, neo3_state_manager.REGISTER_STATE_VALIDATOR, gov.SVList([]string{"sv3"}, e.a(x).Addr), e.a(x), h)
 		}}}})
 	// 10 approveRemoveStateValidator
-	gs = append(gs, &group{name: "approveRemoveStateValidator", setup: svSetup(true, false),
+	gs = append(gs, &group{name: "approveRemoveStateValidator", setup: svSetup(true, level == 0),
 		pairs: []*pair{with(e.pSvRem(1, "sv2"), all), with(e.pSvReg(1, "sv3"), second), with(e.pSvRem(0, "sv1"), few)},
 		extras: []*extra{{name: "removeStateValidator([sv2])->id1", resets: []string{"approveRemoveStateValidator(1)"}, run: func(w gov.Execer, h uint32) polyenv.Result {
 			if svCounter(w, neo3_state_manager.STATE_VALIDATOR_REMOVE_ID) != 1 {
@@ -550,7 +551,18 @@ func (e *env) groups(level int) []*group {
 			}
 			return gov.Call(w, gov.SVM, neo3_state_manager.REMOVE_STATE_VALIDATOR, gov.SVList([]string{"sv2"}, e.a(x).Addr), e.a(x), h)
 		}}}})
+	// 11 the validator set shrinks under a pending request (no candidates in the pool): black-listing validator V_N
+	// lowers the quorum, so the pending request R1 reaches it without a new validator approval; the next
+	// approval transaction of R1 (even by an outsider) then applies it.
+	if q1 := gov.Quorum(e.N - 1); e.N >= 5 && q1 < q {
+		gs = append(gs, &group{name: "validatorSetShrinks", depth: q1 + q + 1, setup: func(w gov.Execer) {
+			must(e.scRequest(w, side_chain_manager.REGISTER_SIDE_CHAIN, "o1", 1, "reg", h0), "reg 1")
+		}, pairs: []*pair{with(e.pScReg(1), append(e.firstVals(q1), "X")), with(e.pBlack(e.vname(e.N)), e.firstVals(q))}})
+	}
 	for _, g := range gs {
+		if g.name == "validatorSetShrinks" {
+			continue
+		}
 		var ps []*pair
 		for _, p := range g.pairs {
 			if len(p.approvers) > 0 {
@@ -682,8 +694,8 @@ func (x *explorer) step(s state, evn string) (state, bool) {
 	cntInst := countIn(nm.Inst[p.name], cons)
 	expect := cnt >= q
 	var nonSign []string
-	for _, k := range changed {
-		if k != p.signKey {
+	for _, k := range changed { // approval bookkeeping records (whatever their key derivation) are not "effect"
+		if !gov.IsSignKey(k) {
 			nonSign = append(nonSign, k)
 		}
 	}
@@ -818,6 +830,9 @@ func main() {
 			depth := q + 2
 			if len(g.extras) > 0 {
 				depth++
+			}
+			if g.depth > 0 {
+				depth = g.depth
 			}
 			st := x.run(depth)
 			if st.Truncated {
